@@ -360,7 +360,7 @@ def judge(prop, tier, seed, runs, meta, t0, floors=None, extra_cov=None, extra_v
     violations = []   # (sig, run, viol)
     inconclusive = list(extra_inconclusive or [])
     for ev in (extra_viols or []):
-        violations.append((ev["sig"], PseudoRun("compile-fail-corpus"), ev))
+        violations.append((ev["sig"], PseudoRun("auxiliary-step"), ev))
     foreign = 0
     for r in runs:
         for v in r.viols:
@@ -558,3 +558,91 @@ def compile_fail_corpus(variant="std-debug"):
     finally:
         shutil.rmtree(tmpd, ignore_errors=True)
     return results, viols, inconc
+
+
+# ------------------------------------------------------------------------------------------
+# C06 oracle 2: machine-level access widths from valgrind lackey
+def lackey_probe(variant):
+    """Run `vmv c06 probe` under valgrind lackey and judge every scripted transfer.
+    Returns (coverage dict, violations, inconclusive)."""
+    import tempfile
+    build(variant)
+    exe = bin_path(variant)
+    os.makedirs(BUILD, exist_ok=True)
+    fd, logp = tempfile.mkstemp(prefix="lackey-", suffix=".log", dir=BUILD)
+    os.close(fd)
+    try:
+        try:
+            p = subprocess.run(["valgrind", "--tool=lackey", "--trace-mem=yes", "--log-file=" + logp, exe, "c06", "probe"],
+                               stdout=subprocess.PIPE, stderr=subprocess.PIPE, text=True, timeout=900, cwd=HARNESS)
+        except (OSError, subprocess.TimeoutExpired) as e:
+            return {}, [], ["lackey probe (%s) did not run: %s" % (variant, e)]
+        if p.returncode != 0:
+            return {}, [], ["lackey probe (%s) exited with %d: %s" % (variant, p.returncode, p.stderr[-400:])]
+        marker = None
+        xfers = []
+        areas = []
+        for ln in p.stdout.splitlines():
+            if ln.startswith("LACKEY marker="):
+                kv = dict(x.split("=") for x in ln.split()[1:])
+                marker = int(kv["marker"])
+                areas = [(int(kv["arena"]), int(kv["arena_len"])), (int(kv["region"]), int(kv["region_len"]))]
+            elif ln.startswith("XFER "):
+                _, i, kind, addr, n, entry = ln.split(" ", 5)
+                xfers.append((int(i), kind, int(addr), int(n), entry))
+        if marker is None or not xfers:
+            return {}, [], ["lackey probe (%s) printed no transfer table" % variant]
+        # walk the trace: marker stores delimit the windows, in order
+        windows = []
+        cur = None
+        mk = "%x" % marker
+        nlines = 0
+        with open(logp, errors="replace") as f:
+            for ln in f:
+                nlines += 1
+                if len(ln) < 4 or ln[0] != " " or ln[1] not in "SLM":
+                    continue
+                try:
+                    a_s, sz_s = ln[3:].strip().split(",")
+                    a = int(a_s, 16)
+                    sz = int(sz_s)
+                except ValueError:
+                    continue
+                if ln[1] == "S" and sz == 4 and a == marker:
+                    cur = []
+                    continue
+                if ln[1] == "S" and sz == 4 and a == marker + 4:
+                    if cur is not None:
+                        windows.append(cur)
+                    cur = None
+                    continue
+                if cur is not None:
+                    for (b, l) in areas:
+                        if a < b + l and b < a + sz:
+                            cur.append((ln[1], a, sz))
+                            break
+        viols, judged = [], 0
+        samples = []
+        if len(windows) != len(xfers):
+            return {}, [], ["lackey probe (%s): %d marker windows for %d transfers" % (variant, len(windows), len(xfers))]
+        for (i, kind, addr, n, entry), acc in zip(xfers, windows):
+            if kind == "A":
+                # atomic store: a plain mov (S) or an xchg, which valgrind models as a load followed
+                # by a compare-and-swap (L + M) - every access must still be exactly (addr, n)
+                ok = 1 <= len(acc) <= 3 and all(a[1] == addr and a[2] == n for a in acc) and any(a[0] in "SM" for a in acc)
+            else:
+                ok = len(acc) == 1 and acc[0][0] == kind and acc[0][1] == addr and acc[0][2] == n
+            judged += 1
+            if len(samples) < 4:
+                samples.append(dict(entry=entry, expected="%s %#x,%d" % (kind, addr, n), observed=["%s %#x,%d" % a for a in acc]))
+            if not ok:
+                viols.append(dict(sig="C06/lackey/%s/%s" % (variant.split("-")[-1], re.sub(r"\[.*?\]", "", entry)), case=i,
+                                  detail=dict(entry=entry, expected="%s %#x,%d" % (kind, addr, n),
+                                              observed=["%s %#x,%d" % a for a in acc][:12], variant=variant)))
+        cov = {"lackey_" + variant.replace("-", "_"): dict(transfers_judged=judged, trace_lines=nlines, samples=samples)}
+        return cov, viols, []
+    finally:
+        try:
+            os.unlink(logp)
+        except OSError:
+            pass
